@@ -111,3 +111,6 @@ func (g *Getter) ToDiscoveryClient() (discovery.CachedDiscoveryInterface, error)
 	return memory.NewMemCacheClient(dc), nil
 }
 func (g *Getter) ToRESTMapper() (meta.RESTMapper, error) { return StaticMapper(), nil }
+
+// ToRawKubeConfigLoader completes genericclioptions.RESTClientGetter (needed by action.Configuration.Init).
+func (g *Getter) ToRawKubeConfigLoader() clientcmd.ClientConfig { return g.F.ToRawKubeConfigLoader() }
